@@ -37,6 +37,7 @@ type AtomAttr struct {
 }
 
 type LoopRec struct {
+	NFacts int // facts established before the loop was entered
 	Tag   string
 	Phis  []PhiRec
 	Fn    *ssa.Function
@@ -86,7 +87,7 @@ func (s *State) clone() *State {
 	n.eqs = append([]Lin(nil), s.eqs...)
 	n.loops = make([]LoopRec, len(s.loops))
 	for i, l := range s.loops {
-		n.loops[i] = LoopRec{Tag: l.Tag, Fn: l.Fn, Phis: append([]PhiRec(nil), l.Phis...)}
+		n.loops[i] = LoopRec{Tag: l.Tag, Fn: l.Fn, NFacts: l.NFacts, Phis: append([]PhiRec(nil), l.Phis...)}
 	}
 	return n
 }
@@ -211,6 +212,7 @@ type Explorer struct {
 	maxDepth int
 	cut      bool
 	frameSeq int
+	curTag   string
 	Stats    struct{ Paths, Forks, Inlined, Steps int }
 }
 
@@ -389,7 +391,7 @@ func (x *Explorer) runBlock(fr *Frame, b *ssa.BasicBlock, pred *ssa.BasicBlock, 
 			return
 		}
 		fr.visited[b] = true
-		rec := LoopRec{Tag: tag, Fn: fr.fn}
+		rec := LoopRec{Tag: tag, Fn: fr.fn, NFacts: len(st.facts)}
 		for _, in := range b.Instrs {
 			ph, ok := in.(*ssa.Phi)
 			if !ok {
@@ -753,6 +755,13 @@ func (x *Explorer) step(fr *Frame, st *State, in ssa.Instruction) {
 		et := ins.Type().(*types.Pointer).Elem()
 		switch b := base.(type) {
 		case *Ptr:
+			// a one-element literal indexed by a (bounds-checked) loop variable: element 0
+			if _, isConst := idx.(*KConst); !isConst {
+				if els, ok := x.sliceElems(st, b); ok && len(els) == 1 {
+					fr.env[ins] = &Ptr{O: b.O, Path: b.Path + "[0]"}
+					break
+				}
+			}
 			fr.env[ins] = &Ptr{O: b.O, Path: b.Path + "[" + vstr(idx) + "]"}
 		case *SymPtr:
 			fr.env[ins] = &SymPtr{Base: b.Base + "[" + vstr(idx) + "]", T: et}
